@@ -233,6 +233,13 @@ TProbe == /\ Is("probe") /\ Adv /\ Keep /\ Stutter
                 \/ spc[E] = "full" /\ Size(E) >= N
                 \/ spc[E] \in {"rs", "sync"}
 
+\* a ping tick served in the full-window select: no ping packet can be
+\* queued, the pong timer is started instead; only possible while the send
+\* loop waits there
+\* loop waits there, and like every branch of that select it goes round the
+\* inner loop again (the window is re-examined: GBN!SWake)
+TPingFull == Is("pingFull") /\ Adv /\ SWake(E) /\ KeepS
+
 TInfo == /\ \/ Is("sendCall") \/ Is("closeQuit")
             \/ Is("closeDone") \/ Is("fin") \/ Is("pongTimeout")
             \/ Is("note") \/ Is("new") \/ Is("setN") \/ Is("hsDone")
@@ -254,7 +261,7 @@ TraceNext ==
     \/ TReset \/ TPing \/ TAdd \/ TTxData \/ TTxAck \/ TTxNack \/ TTxOther
     \/ TInj \/ TDeq \/ TRx \/ TRSeq \/ TNackSupp \/ TAck \/ TAckEmpty \/ TNack
     \/ TFull \/ TWake \/ TResend \/ TResendSkip \/ TSyncWait \/ TSyncDone
-    \/ TRecvRet \/ TRecvKept \/ TSendRet \/ TProbe \/ TInfo \/ TEnd
+    \/ TRecvRet \/ TRecvKept \/ TSendRet \/ TProbe \/ TPingFull \/ TInfo \/ TEnd
 
 TraceSpec == TraceInit /\ [][TraceNext]_tvars
 
